@@ -1285,6 +1285,12 @@ def std_model(I, p, fr, t, args):
         if dty.startswith(("std::collections::HashMap", "std::collections::BTreeMap")) and \
                 all(isinstance(x, Adt) and set(x.fields) >= {"0", "1"} and _concrete(x.fields["0"]) for x in d0.items[d0.pos:]):
             return MapVal((x.fields["0"], x.fields["1"]) for x in d0.items[d0.pos:])
+    if n in ("cloned", "copied", "by_ref", "peekable", "fuse") and isinstance(d0, Iter) and d0.items is not None and \
+            (t.get("callee_trait") == "core::iter::traits::iterator::Iterator" or c.startswith("core::iter::")):
+        if n in ("cloned", "copied"):
+            vals = [I.deref(x) for x in d0.items[d0.pos:]]
+            return Iter([copy.deepcopy(x) if isinstance(x, (Adt, Vec)) else x for x in vals])
+        return d0
     if n in ("rev",) and isinstance(d0, Iter) and d0.items is not None:
         return Iter(list(reversed(d0.items[d0.pos:])))
     if n in ("enumerate",) and isinstance(d0, Iter) and d0.items is not None:
